@@ -1,6 +1,7 @@
 package analysis
 
 import (
+	"github.com/go-openapi/analysis/internal/verifhook"
 	"github.com/go-openapi/spec"
 	"github.com/go-openapi/strfmt"
 )
@@ -19,6 +20,8 @@ func Schema(opts SchemaOpts) (*AnalyzedSchema, error) {
 	if opts.Schema == nil {
 		return nil, ErrNoSchema
 	}
+	verifhook.Enter("Schema")
+	defer verifhook.Leave("Schema")
 
 	a := &AnalyzedSchema{
 		schema:   opts.Schema,
